@@ -1,3 +1,4 @@
+import Props.FnTie
 import JwtProofs.Decode
 import JwtProofs.Val
 import JwtModel.Encode
@@ -260,5 +261,70 @@ theorem v1_payload_is_version_1 (j : Json) (id : Ident) (top : Str) (h : identOf
     rw [this] at h
     simp only [ht, ne_eq, not_false_eq_true, if_true, Except.ok.injEq] at h
     rw [← h]
+
+/-! ## The migration functions as translated from today's source
+
+`vNXClaims.migrateV1` are translated statement by statement (`Gen.Fn.V2.v1XClaims_migrateV1`); the theorems below say
+that on the struct a v1 payload decodes into (read through the v1 struct tags) they never panic and return exactly the
+struct that the model's migrated value reads as (through the v2 struct tags) — so the field tables above are tables of
+what today's migration code does. -/
+
+open Jwt.Gen.Fn in
+theorem claimsData_carried (m v1 : Val) (h : ∀ k ∈ stdKeys, m.field k = v1.field k) :
+    V2.T_ClaimsData.ofVal m = V2.T_ClaimsData.ofVal v1 := by
+  simp only [V2.T_ClaimsData.ofVal]
+  rw [h "aud" (by decide), h "exp" (by decide), h "jti" (by decide), h "iat" (by decide), h "iss" (by decide),
+    h "name" (by decide), h "nbf" (by decide), h "sub" (by decide)]
+
+open Jwt.Gen.Fn in
+/-- `v1ActivationClaims.migrateV1` -/
+theorem gen_migrateActivation (v1 : Val) :
+    V2.v1ActivationClaims_migrateV1 (V2.T_v1ActivationClaims.ofVal v1) =
+      some (V2.T_ActivationClaims.ofVal (migrateActivation v1), false) := by
+  obtain ⟨t1, t2, t3, t4, t5, t6⟩ := migrate_activation_table v1
+  have hcd := claimsData_carried (migrateActivation v1) v1 (std_carried_activation v1)
+  unfold V2.v1ActivationClaims_migrateV1
+  simp only [Option.pure_def, Option.bind_eq_bind, Option.bind_some, V2.T_ActivationClaims.ofVal, V2.T_Activation.ofVal,
+    V2.T_GenericFields.ofVal, hcd, t1, t2, t3, t4, t5, t6]
+  rfl
+
+open Jwt.Gen.Fn in
+/-- `v1OperatorClaims.migrateV1` -/
+theorem gen_migrateOperator (v1 : Val) :
+    V2.v1OperatorClaims_migrateV1 (V2.T_v1OperatorClaims.ofVal v1) =
+      some (V2.T_OperatorClaims.ofVal (migrateOperator v1), false) := by
+  obtain ⟨t1, t2, t3, t4, t5, t6, t7, t8, t9⟩ := migrate_operator_table v1
+  have hcd := claimsData_carried (migrateOperator v1) v1 (std_carried_operator v1)
+  unfold V2.v1OperatorClaims_migrateV1
+  simp only [Option.pure_def, Option.bind_eq_bind, Option.bind_some, V2.T_OperatorClaims.ofVal, V2.T_Operator.ofVal,
+    V2.T_GenericFields.ofVal, hcd, t1, t2, t3, t4, t5, t6, t7, t8, t9]
+  rfl
+
+open Jwt.Gen.Fn in
+/-- `v1UserClaims.migrateV1` -/
+theorem gen_migrateUser (v1 : Val) :
+    V2.v1UserClaims_migrateV1 (V2.T_v1UserClaims.ofVal v1) =
+      some (V2.T_UserClaims.ofVal (migrateUser v1), false) := by
+  obtain ⟨tc, t2, t3, t4, t5, t6⟩ := migrate_user_table v1
+  have hcd := claimsData_carried (migrateUser v1) v1 (std_carried_user v1)
+  -- `times_location` rides along with the embedded `Limits` (absent in genuine v1 payloads)
+  have tl : ((migrateUser v1).field "nats").field "times_location" = (v1.field "nats").field "times_location" := by
+    simp only [migrateUser]
+    rw [Val.field_set_eq _ _ _ (by rw [copyFrom_hasKey]; decide), rehome_other _ _ _ (by decide),
+      Val.field_set_ne _ _ _ _ (by decide), copyFrom_carried _ _ _ _ (by decide) (by decide)]
+  have c1 := tc "pub" (by decide)
+  have c2 := tc "sub" (by decide)
+  have c3 := tc "resp" (by decide)
+  have c4 := tc "src" (by decide)
+  have c5 := tc "times" (by decide)
+  have c6 := tc "subs" (by decide)
+  have c7 := tc "data" (by decide)
+  have c8 := tc "payload" (by decide)
+  have c9 := tc "bearer_token" (by decide)
+  unfold V2.v1UserClaims_migrateV1
+  simp only [Option.pure_def, Option.bind_eq_bind, Option.bind_some, V2.T_UserClaims.ofVal, V2.T_User.ofVal,
+    V2.T_UserPermissionLimits.ofVal, V2.T_Permissions.ofVal, V2.T_Limits.ofVal, V2.T_UserLimits.ofVal, V2.T_NatsLimits.ofVal,
+    V2.T_GenericFields.ofVal, hcd, c1, c2, c3, c4, c5, c6, c7, c8, c9, tl, t2, t3, t4, t5, t6]
+  rfl
 
 end Jwt.C04
